@@ -367,9 +367,9 @@ def r04c(ck, prog):
 def run(ck, progs):
     describe(ck)
     for cfg, prog in progs.items():
-        r04a(ck, prog)
-        r04b(ck, prog)
-        r04c(ck, prog)
+        ck.attempt(r04a, ck, prog)
+        ck.attempt(r04b, ck, prog)
+        ck.attempt(r04c, ck, prog)
     return ("Sibling cross-check of the three readers' classification chains (predicate, actions, histogram, same "
             "character); span of every loop over msa_seq.gaps and coverage of the totals deciding the alignment status; "
             "who assigns ALN_STATUS_UNALIGNED; who touches gaps before the merge phase; stores into kalign_read_input's "
